@@ -92,6 +92,26 @@ theorem C16_elements_conserved (r : Rule) (m : Mol) (f : List Nat) (ps : Product
   rw [h2, h3] at h1
   exact h1
 
+/-- **T1c, every product molecule is connected**: for every molecule graph, any two atoms that `components` puts into
+the same product molecule are joined by a path of bonds of that graph — no product "molecule" lumps separate pieces. -/
+theorem C16_components_connected (p : WMol) : ∀ c ∈ components p, ∀ a ∈ c, ∀ b ∈ c, Conn p a b :=
+  components_connected p
+
+/-- **T1d, full statement** (not proved): bonded atoms are always in the same product molecule, i.e. together with
+`C16_components_connected` the product molecules are exactly the connected components.  What is missing is the proof
+that `natoms` relaxation passes always reach the fixed point (the smallest label travels one bond per pass); the
+correspondence check compares the split with RDKit's `GetMolFrags` on every product, and the driver reports
+`componentsClosed` for every product (the harness insists on `true`). -/
+def C16_components_closed_full : Prop :=
+  ∀ p : WMol, p.wf = true → ∀ e ∈ p.bonds, ∃ c ∈ components p, e.a ∈ c ∧ e.b ∈ c
+
+/-- **T1d (proved part)**: for every well-formed graph on which the labelling has reached its fixed point (decidable:
+`componentsClosed`, evaluated by the driver on every product), the two ends of every bond are in the same product
+molecule. -/
+theorem C16_components_closed_partial (p : WMol) (hw : p.wf = true) (hfix : componentsClosed p = true) :
+    ∀ e ∈ p.bonds, ∃ c ∈ components p, e.a ∈ c ∧ e.b ∈ c :=
+  components_closed_of_fixpoint p hw hfix
+
 /-! ## T2 — every edit does exactly what it declares, and nothing else -/
 
 /-- **T2, per operator**: for every edit object, index map and well-formed graph: if the edit is applied
@@ -240,6 +260,12 @@ theorem C16_one_product_set_per_match (r : Rule) (m : Mol) (ps : List ProductSet
     (h : runReactants r m = .ok ps) : ps.length = (queryMatches r.query m).length :=
   mapM_length _ _ _ h
 
+/-- **T4, per match**: the k-th product set is the result of applying the rule at the k-th match. -/
+theorem C16_run_per_match (r : Rule) (m : Mol) (ps : List ProductSet) (h : runReactants r m = .ok ps)
+    (k : Nat) (f : List Nat) (hk : (queryMatches r.query m)[k]? = some f) :
+    ∃ p, ps[k]? = some p ∧ runMatch r m f = .ok p :=
+  mapM_getElem _ _ _ h k f hk
+
 /-- every match of the reactant pattern of a rule that was read is an index map without repetitions, of the
 pattern's length, into the molecule: the hypothesis of `C16_balance` holds for every match. -/
 theorem C16_matches_injective (t : Ast) (r : Rule) (hread : readRule t = .ok r) (m : Mol) (f : List Nat)
@@ -250,6 +276,26 @@ theorem C16_matches_injective (t : Ast) (r : Rule) (hread : readRule t = .ok r) 
   have hwf := PGA.C08.C08_read_wf _ _ hq
   have hc := (mem_rawMatches r.query m f hwf).1 (mem_queryMatches_raw hf)
   exact ⟨hc.inj, hc.length, hc.range⟩
+
+/-- **T3 for `RunReactants`**: for every parse tree the rule reader accepts and every well-formed molecule: if
+`RunReactants` returns, then in the k-th product set every atom of the k-th match has the same bond order sum +
+radical electrons + formal charge as in the reactant. -/
+theorem C16_balance_run (t : Ast) (r : Rule) (hread : readRule t = .ok r) (m : Mol) (hm : m.wf = true)
+    (ps : List ProductSet) (h : runReactants r m = .ok ps) (k : Nat) (f : List Nat) (p : ProductSet)
+    (hk : (queryMatches r.query m)[k]? = some f) (hp : ps[k]? = some p) (z : Nat) (hz : z ∈ f) :
+    p.mol.E z = (WMol.ofMol m).E z := by
+  obtain ⟨p', hp', hrun⟩ := C16_run_per_match r m ps h k f hk
+  rw [hp] at hp'
+  have : p = p' := Option.some.inj hp'
+  subst this
+  have hf : f ∈ queryMatches r.query m := List.mem_of_getElem? hk
+  obtain ⟨hnd, _, _⟩ := C16_matches_injective t r hread m f hf
+  unfold runMatch at hrun
+  obtain ⟨q, hq, h2⟩ := bind_ok hrun
+  simp only [pure, Except.pure, Except.ok.injEq] at h2
+  subst h2
+  obtain ⟨l, hl⟩ := List.getElem?_of_mem hz
+  exact C16_balance t r hread m hm f hnd q hq l z hl
 
 /-- **T4 with C08 (proved part)**: for every rule that was read whose reactant pattern does not use the `*` suffix
 (C08's guard, finding FM1) and every well-formed molecule: if `RunReactants` returns, the number of product sets is
